@@ -25,6 +25,9 @@ type Opts struct {
 	// BigPct: percentage of specs that get 60-160 extra keyword-like literal tokens in the
 	// default mode (several hundred DFA states: row offsets and state numbers beyond one byte)
 	BigPct int
+	// NonGreedy: repetitions may be non-greedy (x*?, x+?), and some rules have the shape
+	// "body*? terminator". Only for checks whose oracle does not need the non-greedy semantics.
+	NonGreedy bool
 }
 
 func ri(t *rapid.T, lo, hi int, l string) int { return rapid.IntRange(lo, hi).Draw(t, l) }
@@ -42,6 +45,7 @@ func poolRune(t *rapid.T, extra []rune) rune {
 // neighbours of endpoints already chosen (boundary bias)
 type genState struct {
 	ends []rune
+	ng   bool // non-greedy repetitions allowed
 }
 
 func (g *genState) note(r rune) {
@@ -134,6 +138,9 @@ func genExpr(t *rapid.T, g *genState, depth int, macros []string) *Expr {
 		return e
 	default:
 		kind := []string{"opt", "star", "plus"}[ri(t, 0, 2, "c")]
+		if g.ng && kind != "opt" && ri(t, 0, 2, "ng") == 0 {
+			kind += "ng"
+		}
 		return &Expr{Kind: kind, Kids: []*Expr{genExpr(t, g, depth-1, macros)}}
 	}
 }
@@ -147,7 +154,7 @@ func GenSpec(t *rapid.T, o Opts) *Spec {
 	if o.Depth == 0 {
 		o.Depth = 3
 	}
-	g := &genState{}
+	g := &genState{ng: o.NonGreedy}
 	s := &Spec{}
 	var macroNames []string
 	if o.Macros && ri(t, 0, 2, "macros?") != 0 {
@@ -161,6 +168,12 @@ func GenSpec(t *rapid.T, o Opts) *Spec {
 	nModes := 0
 	if o.MaxModes > 0 {
 		nModes = ri(t, 0, o.MaxModes, "nmodes")
+		if o.ModeActs && ri(t, 0, 99, "manymodes") < 4 {
+			// two-digit mode indices: 10-13 named modes with few, shallow rules each
+			nModes = ri(t, 10, 13, "nmodes2")
+			o.MaxRules = min(o.MaxRules, 2)
+			o.Depth = min(o.Depth, 2)
+		}
 	}
 	s.Modes = append(s.Modes, &Mode{Name: ""})
 	for i := 0; i < nModes; i++ {
@@ -174,6 +187,13 @@ func GenSpec(t *rapid.T, o Opts) *Spec {
 		nr := ri(t, 1, o.MaxRules, "nr")
 		for i := 0; i < nr; i++ {
 			e := genExpr(t, g, o.Depth, macroNames)
+			if o.NonGreedy && ri(t, 0, 4, "ngrule") == 0 {
+				// body*? terminator
+				e = &Expr{Kind: "seq", Kids: []*Expr{{Kind: []string{"starng", "plusng"}[ri(t, 0, 1, "ngk")], Kids: []*Expr{genClass(t, g)}}, genLit(t, g)}}
+				if ri(t, 0, 2, "ngopen") != 0 {
+					e.Kids = append([]*Expr{genLit(t, g)}, e.Kids...)
+				}
+			}
 			if !o.Nullable && eng.Nullable(s, e) {
 				e = &Expr{Kind: "seq", Kids: []*Expr{e, genLit(t, g)}}
 			}
